@@ -363,7 +363,7 @@ def main():
     run.outside = ['load terms of the torsion / tilt amplitudes under a harmonic axial load (the package own definition of Nxxtop[2])', 'iso models; quick tier: Donnell CLPT only (thorough: + Sanders CLPT, FSDT Donnell)', 'K_uu c_u = f_u solve (C07 decides sparse.solve)',
                    'orders above the bound']
     res = pmap(kprop.job, [(__name__, c) for c in cf])
-    res = kprop.explore_loci(__name__, res, run)      # second pass: the equality loci the executed code branched on
+    res = kprop.explore_loci(__name__, res, run, max_new=80, per_depth_budget=True)      # further passes: the equality loci the executed code branched on (the geometry configurations alone use dozens of follow-ups that turn out not explorable)
     kprop.handle(run, res, build, 'values differ from the definition')
     return run.finish()
 
